@@ -67,9 +67,29 @@ func genMetaPackage(rng *rand.Rand, depth int, opts func(*rc.GenOpts)) genPkg {
 		}
 		m := object.MetaObject{Description: name, Methods: map[uint32]object.MetaMethod{}, Signals: map[uint32]object.MetaSignal{}, Properties: map[uint32]object.MetaProperty{}}
 		used := map[uint32]bool{}
+		// one meta-object in three numbers its methods, signals and properties independently (three maps:
+		// an identifier is unique per kind only; a property and its change signal sharing one is common)
+		perKind := rng.Intn(3) == 0
+		var others []uint32
+		nextKind := func() {
+			if perKind {
+				for u := range used {
+					others = append(others, u)
+				}
+				sort.Slice(others, func(a, b int) bool { return others[a] < others[b] })
+				used = map[uint32]bool{}
+			}
+		}
 		uid := func() uint32 {
 			for {
 				var u uint32
+				if len(others) > 0 && rng.Intn(2) == 0 {
+					u = others[rng.Intn(len(others))]
+					if !used[u] {
+						used[u] = true
+						return u
+					}
+				}
 				switch rng.Intn(4) {
 				case 0:
 					u = uint32(1 + rng.Intn(200))
@@ -117,13 +137,19 @@ func genMetaPackage(rng *rand.Rand, depth int, opts func(*rc.GenOpts)) genPkg {
 			}
 			m.Methods[u] = mm
 		}
+		nextKind()
 		for j := rng.Intn(3); j > 0; j-- {
 			u := uid()
 			m.Signals[u] = object.MetaSignal{Uid: u, Name: goodIdent(rng, 8), Signature: tuple(0).Sig()}
 		}
+		nextKind()
 		for j := rng.Intn(3); j > 0; j-- {
 			u := uid()
-			m.Properties[u] = object.MetaProperty{Uid: u, Name: goodIdent(rng, 8), Signature: tuple(1).Sig()}
+			name := goodIdent(rng, 8)
+			if sg, shared := m.Signals[u]; shared && rng.Intn(2) == 0 {
+				name = sg.Name // the property and the signal of the same identifier have the same name
+			}
+			m.Properties[u] = object.MetaProperty{Uid: u, Name: name, Signature: tuple(1).Sig()}
 		}
 		metas[name] = m
 	}
@@ -236,7 +262,7 @@ var idlTokens = []string{"package", "interface", "struct", "enum", "end", "fn", 
 	"Vec<", "Map<", "Tuple<", "int32", "str", "any", "obj", "bool", "float64", "unknown", "A", "b", "x1", "_", "0", "-1", "\n", "\n", " ", "\t", "é", "\x00"}
 
 func c18(c *wk.Ctx) {
-	c.Note("rule", "streams: roundtrip = packages of 1-3 generated meta-objects (methods with tuple parameter signatures - with no, exactly as many, fewer or more parameter descriptions than parameters - and any return incl. v, signals and properties with tuple signatures; signatures from the grammar with structs shared between actions, nested tuples, template-style struct names, m o X; unique uids in 1..2^32-1; names = identifiers avoiding IDL keywords and basic-type prefixes): ParseIDL(GenerateIDL(m)) must give the same uids, names and signatures; case-twins = the same with structure names that differ from another structure's name by the case of the first letter only; wide = the same with one action of 120 .. 8000 parameters (one IDL line of 2 KiB .. 150 KiB); edge = the same with names that start with a basic IDL type name, IDL keywords as names, or empty nested tuples; text = arbitrary text (random bytes, IDL token soup, mutated valid IDL, valid IDL cut anywhere and ending in the beginning of a comment, valid IDL under a package declaration with an unusual name: empty dotted components, leading / trailing dots and dashes, no newline) must yield a package or an error, never a panic. Distinct non-trivial = distinct generated IDL texts with at least one action (roundtrip) / distinct texts (text).")
+	c.Note("rule", "streams: roundtrip = packages of 1-3 generated meta-objects (methods with tuple parameter signatures - with no, exactly as many, fewer or more parameter descriptions than parameters - and any return incl. v, signals and properties with tuple signatures; signatures from the grammar with structs shared between actions, nested tuples, template-style struct names, m o X; uids in 1..2^32-1, unique per meta-object or - one meta-object in three - per kind only (a signal and a property, or a method and a signal, sharing an identifier and possibly the name); names = identifiers avoiding IDL keywords and basic-type prefixes): ParseIDL(GenerateIDL(m)) must give the same uids, names and signatures; case-twins = the same with structure names that differ from another structure's name by the case of the first letter only; wide = the same with one action of 120 .. 8000 parameters (one IDL line of 2 KiB .. 150 KiB); edge = the same with names that start with a basic IDL type name, IDL keywords as names, or empty nested tuples; text = arbitrary text (random bytes, IDL token soup, mutated valid IDL, valid IDL cut anywhere and ending in the beginning of a comment, valid IDL under a package declaration with an unusual name: empty dotted components, leading / trailing dots and dashes, no newline) must yield a package or an error, never a panic. Distinct non-trivial = distinct generated IDL texts with at least one action (roundtrip) / distinct texts (text).")
 	depth := c.Pick(3, 5)
 	c.Cases("roundtrip", c.Pick(5000, 200000), func(i int, rng *rand.Rand) {
 		g := genMetaPackage(rng, 1+rng.Intn(depth), nil)
